@@ -11,13 +11,16 @@ import (
 	"runtime"
 	"sort"
 	"strings"
+	"sync"
+	"sync/atomic"
 
 	"github.com/cosmos/iavl"
 	"github.com/cosmos/iavl/verifcheck/vstore"
 )
 
 type faultStats struct {
-	ops, calls, runs, surfaced, harmless int
+	ops, calls, runs, surfaced, harmless int64
+	mu                                   sync.Mutex
 	sites                                map[string]int
 }
 
@@ -240,17 +243,30 @@ var workerMarker *os.File
 // survey (VERIF_C17_SURVEY=1): development aid - record every failing (operation, fault site, symptom) and keep going.
 var survey = os.Getenv("VERIF_C17_SURVEY") == "1"
 
+var markRing struct {
+	mu   sync.Mutex
+	last [6]string
+	n    int
+}
+
+// mark records the case a worker is about to execute (the most recent ones are kept: several workers run
+// concurrently); the parent process reads the marker file if the child dies.
 func mark(format string, a ...any) {
 	if workerMarker == nil {
 		return
 	}
 	s := fmt.Sprintf(format, a...)
-	if len(s) > 900 {
-		s = s[:900]
+	if len(s) > 400 {
+		s = s[:400]
 	}
-	b := make([]byte, 1024)
-	copy(b, s)
+	markRing.mu.Lock()
+	markRing.last[markRing.n%len(markRing.last)] = s
+	markRing.n++
+	all := strings.Join(markRing.last[:], " || ")
+	b := make([]byte, 4096)
+	copy(b, all)
 	_, _ = workerMarker.WriteAt(b, 0)
+	markRing.mu.Unlock()
 }
 
 func faultOracle(s *Spec, keys [][]byte, stats *faultStats, pairs bool) func(w *World, hist []Op) *Violation {
@@ -272,8 +288,8 @@ func faultOracle(s *Spec, keys [][]byte, stats *faultStats, pairs bool) func(w *
 			if e0 != nil {
 				continue // fails without faults (e.g. proof on an empty tree): nothing to compare
 			}
-			stats.ops++
-			stats.calls += n
+			atomic.AddInt64(&stats.ops, 1)
+			atomic.AddInt64(&stats.calls, int64(n))
 			idxSets := [][]int{}
 			for i := 0; i < n; i++ {
 				idxSets = append(idxSets, []int{i})
@@ -299,7 +315,7 @@ func faultOracle(s *Spec, keys [][]byte, stats *faultStats, pairs bool) func(w *
 				var r1 string
 				var e1 error
 				pv := safely(op.name, func() *Violation { r1, e1 = op.run(wB); return nil })
-				stats.runs++
+				atomic.AddInt64(&stats.runs, 1)
 				site := "?"
 				if wB.VS.LastFaultStack != nil {
 					site = faultSite(wB.VS)
@@ -309,7 +325,9 @@ func faultOracle(s *Spec, keys [][]byte, stats *faultStats, pairs bool) func(w *
 					pv.Detail = fmt.Sprintf("%s with storage call(s) %v failing: %s", op.name, set, pv.Detail)
 					pv.Facts = map[string]any{"op": strings.SplitN(op.name, "(", 2)[0], "site": site, "symptom": "panic"}
 					if survey {
+						stats.mu.Lock()
 						stats.sites[fmt.Sprintf("%s@%s/panic", strings.SplitN(op.name, "(", 2)[0], site)]++
+						stats.mu.Unlock()
 						continue
 					}
 					if stepOver(s, hist, pv) {
@@ -318,15 +336,17 @@ func faultOracle(s *Spec, keys [][]byte, stats *faultStats, pairs bool) func(w *
 					return pv
 				}
 				if e1 != nil {
-					stats.surfaced++
+					atomic.AddInt64(&stats.surfaced, 1)
 					continue
 				}
 				if r1 == r0 {
-					stats.harmless++
+					atomic.AddInt64(&stats.harmless, 1)
 					continue
 				}
 				if survey {
+					stats.mu.Lock()
 					stats.sites[fmt.Sprintf("%s@%s/wrong-result", strings.SplitN(op.name, "(", 2)[0], site)]++
+					stats.mu.Unlock()
 					continue
 				}
 				vv := viol("fault", "%s with storage call(s) %v of %d failing (fault inside %s) returned %q without an error; fault-free result %q", op.name, set, n, site, r1, r0)
@@ -368,8 +388,8 @@ func faultOracle(s *Spec, keys [][]byte, stats *faultStats, pairs bool) func(w *
 			cfgAfter := wA.Cfg
 			wA.Close()
 			_ = pre
-			stats.ops++
-			stats.calls += n
+			atomic.AddInt64(&stats.ops, 1)
+			atomic.AddInt64(&stats.calls, int64(n))
 			for i := 0; i < n; i++ {
 				wB, v := replay(s, hist)
 				if v != nil {
@@ -377,7 +397,7 @@ func faultOracle(s *Spec, keys [][]byte, stats *faultStats, pairs bool) func(w *
 				}
 				wB.VS.FailAt = map[int]bool{wB.VS.NCalls + i: true}
 				mark("C17 write op %s fault %d cfg=%s hist=[%s]", op, i, s.Cfg, histString(hist))
-				stats.runs++
+				atomic.AddInt64(&stats.runs, 1)
 				var opErr error
 				pv := safely(op.String(), func() *Violation { opErr = rawApply(wB, op); return nil })
 				site := "?"
@@ -392,7 +412,9 @@ func faultOracle(s *Spec, keys [][]byte, stats *faultStats, pairs bool) func(w *
 					pv.Detail = fmt.Sprintf("%s with storage call %d failing: %s", op, i, pv.Detail)
 					pv.Facts = map[string]any{"op": opNames[op.Kind], "site": site, "symptom": "panic"}
 					if survey {
+						stats.mu.Lock()
 						stats.sites[fmt.Sprintf("%s@%s/panic", opNames[op.Kind], site)]++
+						stats.mu.Unlock()
 						continue
 					}
 					if stepOver(s, hist, pv) {
@@ -401,9 +423,9 @@ func faultOracle(s *Spec, keys [][]byte, stats *faultStats, pairs bool) func(w *
 					return pv
 				}
 				if opErr != nil {
-					stats.surfaced++
+					atomic.AddInt64(&stats.surfaced, 1)
 				} else {
-					stats.harmless++
+					atomic.AddInt64(&stats.harmless, 1)
 				}
 				// the database left behind reopens to the pre- or the post-state (when the operation reported
 				// success it must be the post-state)
@@ -425,7 +447,9 @@ func faultOracle(s *Spec, keys [][]byte, stats *faultStats, pairs bool) func(w *
 					if opErr == nil {
 						what = "success"
 					}
+					stats.mu.Lock()
 					stats.sites[fmt.Sprintf("%s@%s/bad-db(%s,%s)", opNames[op.Kind], site, what, ferr.Oracle)]++
+					stats.mu.Unlock()
 					continue
 				}
 				if match == "" {
@@ -488,7 +512,13 @@ func c17Specs(tier string, stats *faultStats) []*Spec {
 	keys := bs("a", "ab", "b")
 	add := func(name string, cfg Cfg, depth, maint, wt int) {
 		a := Alpha{Writes: true, Save: true, DelTo: true, LVFO: true, MaxVersions: 3}
-		s := &Spec{Weight: wt, ID: "C17", Name: name, Cfg: cfg, Keys: keys, Vals: bs("x"), MaxDepth: depth, MaxMaint: maint, Alphabet: a.Ops, Workers: 1}
+		vals := bs("x")
+		if strings.Contains(name, "long") {
+			// values long enough that index builds and commits span several physical writes: a failing LATER
+			// write must not leave a database that is neither the old nor the new state
+			vals = bs(strings.Repeat("v", 40))
+		}
+		s := &Spec{Weight: wt, ID: "C17", Name: name, Cfg: cfg, Keys: keys, Vals: vals, MaxDepth: depth, MaxMaint: maint, Alphabet: a.Ops}
 		s.OnState = faultOracle(s, keys, stats, tier == "thorough")
 		specs = append(specs, s)
 	}
@@ -499,6 +529,8 @@ func c17Specs(tier string, stats *faultStats) []*Spec {
 	add(fmt.Sprintf("fast/d%d", d), Cfg{Fast: true}, d, 2, 4)
 	add(fmt.Sprintf("nofast/d%d", d), Cfg{Fast: false}, d, 2, 4)
 	add(fmt.Sprintf("fast-flush150/d%d", d-1), Cfg{Fast: true, Flush: 150}, d-1, 2, 2)
+	add(fmt.Sprintf("nofast-flush110-long/d%d", d-1), Cfg{Fast: false, Flush: 110}, d-1, 2, 2)
+	add(fmt.Sprintf("fast-flush250-long/d%d", d-1), Cfg{Fast: true, Flush: 250}, d-1, 2, 2)
 	return specs
 }
 
@@ -519,11 +551,25 @@ func init() {
 				fmt.Println("SURVEY", x)
 			}
 		}
+		if r.Found == nil {
+			n, fails := bigImportDeviations(true, false)
+			r.States += n
+			r.Transitions += n
+			r.Extra["multi_batch_import"] = map[string]any{"leaves": 6000, "failing_batch_writes_enumerated": n}
+			for _, f := range fails {
+				if id := c.KF.MatchRaw(c.ID, f); id != "" {
+					c.KF.NoteRaw(id, f)
+					continue
+				}
+				rawViolation(c, r, f, nil)
+				break
+			}
+		}
 		r.Assumptions = []string{
 			"node cache 0 so that every read reaches the storage; one failing storage call per execution (thorough: also every pair for read operations with <= 12 calls) instead of random multi-fault sequences",
 			"an operation passes if it reports an error through any of its error channels (return value, Iterator.Error/Close, Exporter.Next) or if its complete result equals the fault-free result",
 			"IterateRange / IterateRangeInclusive have no error result and are outside the statement",
-			"the fault oracle runs in a single worker inside a child process so that a fatal runtime error caused by a fault is attributed to its case",
+			"the check body runs in a child process so that a fatal runtime error caused by a fault is attributed to (one of) the cases in flight",
 		}
 		return r
 	}
